@@ -1,8 +1,13 @@
 """C16 Garbler never reports a wrong result under message corruption."""
 import hashlib
+import os
 import re
+import sys
 
 import vlib
+
+sys.path.insert(0, os.path.dirname(os.path.abspath(__file__)))
+from t1 import run_t1  # noqa: E402  (T1 leaf translator tie, checks/t1.py)
 
 LEVEL = "proof"
 
@@ -17,6 +22,7 @@ THEOREMS = [
 
 def run(ctx):
     ctx.prove("MpcVerif.Props.C16", THEOREMS)
+    run_t1(ctx, ["C16"])          # circuit.BitFromLabel = WireL.bitFrom
     if ctx.tier == "thorough":
         ctx.leanchecker("MpcVerif.Props.C16")
     ctx.build_drv()
